@@ -201,6 +201,15 @@ func (e *Engine) havocGuarded(st *State, ref *Term, g guardInfo) {
 			ft = t2
 		}
 		v := e.freshVal(st, ft, fmt.Sprintf("guarded_%v", f))
+		keepRef := false
+		if e.immutableField(g.typ, f) {
+			// a guarded field that is also declared immutable (assigned only while its object is constructed):
+			// the reference in the field survives the acquire, what it refers to is forgotten
+			if cur, ok := e.load(st, l).(VMap); ok {
+				v = cur
+				keepRef = true
+			}
+		}
 		if m, ok := v.(VMap); ok {
 			st.assume(Gt(m.Ref, Zero)) // lock invariant: the guarded map is never nil
 			if !st.published {
@@ -223,8 +232,43 @@ func (e *Engine) havocGuarded(st *State, ref *Term, g guardInfo) {
 				e.setHeap(st, vns[i], Store(vh, m.Ref, e.fresh("guarded_val", ArrS(IntS, lf.sort))))
 			}
 		}
-		e.store(st, l, v)
+		if !keepRef {
+			e.store(st, l, v)
+		}
 	}
+}
+
+// immutableField: is the (top-level) field at path f of named type t declared `immutable T.f`? The syntactic
+// check that nothing but constructors assigns it is run (and the assumption recorded) on first use.
+func (e *Engine) immutableField(t *types.Named, f []int) bool {
+	if len(f) != 1 {
+		return false
+	}
+	n := t
+	if o := n.Origin(); o != nil {
+		n = o
+	}
+	stt, ok := n.Underlying().(*types.Struct)
+	if !ok || f[0] >= stt.NumFields() {
+		return false
+	}
+	for sp, ps := range e.Specs {
+		if n.Obj().Pkg() == nil || sp.Pkg != n.Obj().Pkg() {
+			continue
+		}
+		for _, im := range ps.Immutable {
+			if im.Type == n.Obj().Name() && im.Field == stt.Field(f[0]).Name() {
+				if why := e.immutableViolated(sp, im); why != "" {
+					// the declaration does not hold of the code: fall back to forgetting the reference as well
+					// (sound); whatever relied on the reference being stable fails as a named obligation
+					return false
+				}
+				e.Assumptions["field "+sp.Pkg.Name()+"."+im.Type+"."+im.Field+" is assigned only while its object is constructed (checked: every store to it in the module targets a local allocation)"] = true
+				return true
+			}
+		}
+	}
+	return false
 }
 
 // mutexThroughField: a mutex reached through a pointer field (m *sync.RWMutex) is identified with the
